@@ -34,7 +34,23 @@ def _one(args):
         return _corpus(entry, which, srec, scratch)
     try:
         text = schema_scen.render(scn)
-        g = mm.generate_text(text, "jsonschema", scratch / "js", root_class="Something")
+        sdk_text = text
+        snippets = None
+        impl = scn.get("impl") or 0
+        if impl:
+            # Ck is @implementation_specific: its JSON definition comes from a snippet. The snippet is what the generator
+            # itself emits for the same class in the twin model without the marker; the documents are produced by the
+            # SDK of the twin model (the Python classes of an implementation-specific class are hand-written snippets
+            # anyway, and serialize exactly like the generated ones).
+            sdk_text = schema_scen.render(dict(scn, impl=0))
+            g0 = mm.generate_text(sdk_text, "jsonschema", scratch / "js0", root_class="Something")
+            if g0["exc"] is not None or g0["rc"] != 0:
+                srec.update({"gen": "exception" if g0["exc"] is not None else "failed", "msg": "twin: " + (json.dumps(g0["exc"]) if g0["exc"] else g0["stderr"])[-300:]})
+                return srec, out
+            defs0 = json.loads((pathlib.Path(g0["out_dir"]) / "schema.json").read_text(encoding="utf-8"))["definitions"]
+            name = "C%d" % impl
+            snippets = {name + ".json": json.dumps({name: defs0[name]}, indent=2)}
+        g = mm.generate_text(text, "jsonschema", scratch / "js", snippets=snippets, root_class="Something")
         if g["exc"] is not None:
             srec.update({"gen": "exception", "msg": json.dumps(g["exc"])[:300]})
             return srec, out
@@ -51,7 +67,7 @@ def _one(args):
         if not srec["draft_ok"]:
             return srec, out
         validator = schema_docs.validator_for(schema)
-        sdk = mm.generate_python_sdk(text, scratch / "py")
+        sdk = mm.generate_python_sdk(sdk_text, scratch / "py")
         try:
             if sdk["rc"] != 0 or sdk.get("import_errors") or not all(k in sdk["mods"] for k in ("types", "verification", "jsonization")):
                 srec["sdk"] = "failed"
